@@ -16,8 +16,7 @@ RULE = ("(1) parallel_for(i0,i1,f,nth) on the real library for ranges -3 <= i0,i
         "by the Lean hand-over model (trace inclusion). Non-trivial = case that starts at least one thread")
 TRUSTED = ["harness/vsched.h deterministic scheduler over the ASL_VERIF hook points in Thread.h (hooks: /verif/hooks_commits.txt)",
            "the trace acceptor in lean/Driver/C13.lean (maps hook events to model steps)"]
-ASSUMPTIONS = ["parallel_for: i1 - i0 < 2^31 and i1 + nth < 2^31 (the loop variable `i += n` and `i1 - i0` are ints)",
-               "pthread_create starts the function exactly once; pthread_join returns after the thread has exited and makes its writes visible",
+ASSUMPTIONS = ["pthread_create starts the function exactly once; pthread_join returns after the thread has exited and makes its writes visible",
                "sem_post/sem_wait and pthread_cond_wait/broadcast behave as POSIX specifies (modelled, not verified)",
                "volatile bool ready/finished flags are read and written atomically with sequential consistency (x86-64)",
                "no int overflow in i += n (|i1| + nth < 2^31)"]
@@ -50,13 +49,20 @@ def gen(rng, tier):
         cases.append(["semc %d %d %d" % (p, c, k if tier == "quick" else k * 20)])
     for w in (1, 2, 5):
         cases.append(["cond %d %d" % (w, 20 if tier == "quick" else 400)])
+    # copies of started function threads (join and finished() through the copy, original destroyed first in `cpd`)
+    for n in ([1, 3] if tier == "quick" else [1, 2, 3, 5, 8]):
+        cases.append(["thr cpy %d %d" % (n, 3 if tier == "quick" else 40), "thr cpd %d %d" % (n, 3 if tier == "quick" else 40)])
+    # ranges at the ends of the int range: the index i += n must not wrap
+    for (a, b) in [(2147483637, 2147483647), (2147483640, 2147483647), (-2147483648, -2147483640), (2147483646, 2147483647)]:
+        for nth in ([1, 3, 8] if tier == "quick" else [1, 2, 3, 5, 8, 12]):
+            cases.append(["pfx %d %d %d" % (a, b, nth)])
     for kinds in (["t", "u", "tt", "ut", "ttt", "utu"] if tier == "quick" else ["t", "u", "tt", "ut", "tu", "ttt", "utu", "tttt", "uutt", "tttttt"]):
         cases.append(["condt %s %d 1500" % (kinds, 3 if tier == "quick" else 25)])
     return cases
 
 
 def nontrivial(case):
-    return any(l.split()[0] in ("pfrow", "thr", "semc", "cond", "condt") for l in case)
+    return any(l.split()[0] in ("pfrow", "pfx", "thr", "semc", "cond", "condt") for l in case)
 
 
 def distribution(cases):
@@ -141,10 +147,6 @@ def extra(ctx):
     return fails[:4]
 
 
-KNOWN = [{"key": "copied-thread-finished",
-          "desc": "a Thread copied after start: join() through the copy works but its finished() stays false for ever",
-          "case": ["thr cpy 1 1"]}]
-
 TECHNIQUE = "Lean 4 theorems (arithmetic partition proof; invariant over an interleaving model for any number of workers) + trace inclusion of hook-point traces + exhaustive ranges"
 LEVEL_TEXT = ("Proved in Lean 4: for all integers i0, i1 and every nth >= 1 the workers of parallel_for run exactly the indices of "
               "[i0,i1), none twice, nothing when i1 <= i0 or nth = 0 (parallel_for_covers / _exactly_once / _zero_threads); for any "
@@ -164,6 +166,6 @@ LEVEL_TEXT = ("Proved in Lean 4: for all integers i0, i1 and every nth >= 1 the 
 LEVEL_NOTE = ("Trusted: pthread/sem/cond semantics as modelled, sequential consistency of the volatile flags, the scheduler harness and "
               "the trace acceptor. The semaphore and condition models are abstractions of the POSIX primitives (asl only wraps them) "
               "and of the user protocol; spurious wake-ups are not modelled (the documented while(!pred) loop absorbs them). The index "
-              "theorems are over the mathematical integers: they describe the int code when i1 - i0 and i1 + nth do not overflow "
-              "(ASSUMPTIONS). A Thread object copied after start is outside the theorems (one object per worker): see the known "
-              "finding copied-thread-finished.")
+              "theorems are over the mathematical integers; since the repair 14af174 the loop index and the range width are "
+              "computed in 64 bits, so they describe the code for every int range. Copies of a started Thread share its finished flag (one flag per worker, as in the model): "
+              "exercised by the thr cpy cases.")
